@@ -46,6 +46,12 @@ CHECKS = {
     'C08': dict(engine='grplens', technique='TLA+ spec IggyGroups (ExclusiveBalanced relation, MayServe rotation window, NextOffsets on the shared group offset) + TLC model checking over every balanced assignment + trace validation with 3 TCP clients',
                 text='Join/leave/dropped connections/partition additions and removals/sends/polls (no partition named, next, auto-commit or manual commit) by three real TCP clients; after every step get_consumer_group and the group offset of every partition are compared with the specification: assignment exclusive and balanced, each poll served from the member\'s own share and in rotation, the offsets returned exactly the ones after the group offset (GroupExactlyOnce is also model-checked as an invariant of a ghost delivery log).',
                 ref='3.5, 7/C08'),
+    'C09': dict(engine='permlens', technique='TLA+ spec IggyPerm (Granted = largest reading of the documented hierarchy; MonotoneStep/RootAll model-checked) + TLC validation of a decision table computed on the real Permissioner, of an unauthenticated sweep over TCP/HTTP and of op-binding traces',
+                text='(1) Every rule of the real Permissioner evaluated (inside catch_unwind) on a structured set of permission records; TLC checks per line: allow implies Granted (no escalation, scoping: parts for another stream/topic are invisible to Granted), no panic, root allowed everywhere, and that one-step-larger records never revoke. (2) Every SDK call on connections that never authenticated / logged out, over TCP (client-side state forced so the request reaches the server) and HTTP: refused except ping and the declared public HTTP paths, state unchanged. (3) A real user given records through update_permissions on an already open connection performs every operation; performed implies Granted for the part of the record that applies to the operation\'s target; permissions stripped and user deleted on the open connection; root cannot be deleted or stripped.',
+                ref='3.7, 7/C09'),
+    'C10': dict(engine='authlens', technique='TLA+ spec IggyAuth (PasswordValid/TokenValid) + TLC model checking + TLC-generated histories + trace validation with an all-candidate login sweep over TCP and HTTP, session probes and a raw-secret file scan',
+                text='Histories over user creation, status and password changes, token creation/expiry/deletion, logins, logouts, clock ticks, the token cleaner and restarts; after every step a login is attempted with every (user, password) pair and every token ever issued over TCP and HTTP and must succeed iff the specification says the credential is valid now; connections are probed (logout de-authenticates) and every file under the data directory is scanned for every raw password/token.',
+                ref='3.7, 7/C10'),
 }
 
 def main():
@@ -70,7 +76,11 @@ def main():
                       kind_free_text='same technique, catalogue level over TCP and HTTP with restarts'),
                  dict(name='grplens', path='lib/grplens.py + harness/src/grp_lens.rs + specs/IggyGroups.tla, MC_IggyGroups.tla, Trace_IggyGroups.tla',
                       serves_properties=['C08', 'C07'],
-                      kind_free_text='same technique, consumer groups with several TCP clients')],
+                      kind_free_text='same technique, consumer groups with several TCP clients'),
+                 dict(name='authlens', path='lib/authlens.py + harness/src/auth_lens.rs + specs/IggyAuth.tla, MC_IggyAuth.tla, Trace_IggyAuth.tla',
+                      serves_properties=['C10'], kind_free_text='same technique, credential life cycle'),
+                 dict(name='permlens', path='lib/permlens.py + harness/src/perm_lens.rs + specs/IggyPerm.tla, MC_IggyPerm.tla, Trace_IggyPerm.tla',
+                      serves_properties=['C09'], kind_free_text='TLC-validated decision table / sweeps against the documented permission hierarchy')],
         checks=[],
         notes='See DESIGN.md. Exit codes: 0 held, 1 + VIOLATION line, 2 tool error. known-findings.json lists fixed and open findings.',
         not_applicable=[],
